@@ -57,6 +57,7 @@ def callbackResult (help : HelpFn) (P : Parser) (cb : Nat) (arg : Option SVal) :
   match cb, arg with
   | 1, _ => some (.flags .help (help P))
   | 10, some (.str (0x21 :: r)) => some (.foreign (B "cberr: " ++ (0x21 :: r)))
+  | 14, _ => some (.foreign (B "cberr: refused"))
   | _, _ => none
 
 /-- `Option.call` -/
